@@ -31,13 +31,13 @@ def run(ctx):
     )
     run.trusted_base = ["CPython ast", "sa/cfg.py, sa/forward.py"]
     run.assumptions = ["os.path.isfile/open semantics; single process (no concurrent writers)"]
-    rule_check_before_write(ctx)
-    rule_single_writer(ctx)
-    rule_filename(ctx)
-    rule_id_directory_syntax(ctx)
-    rule_newest(ctx)
-    rule_all_versions_kept(ctx)
-    rule_save_load(ctx)
+    ctx.do(rule_check_before_write)
+    ctx.do(rule_single_writer)
+    ctx.do(rule_filename)
+    ctx.do(rule_id_directory_syntax)
+    ctx.do(rule_newest)
+    ctx.do(rule_all_versions_kept)
+    ctx.do(rule_save_load)
 
 
 def _open_mode(call):
